@@ -12,6 +12,7 @@ GENERATORS = [
     ("C17", "slice_shell_capture.py", ["{R}/crates/rip-tools/src/builtins/shell.rs", "{H}/shell_capture_slice.rs"]),
     ("C07", "slice_run_tail.py", ["{S}/session.rs", "{H}/run_tail_slice.rs", "{H}/run_prompt_arm_slice.rs", "{S}/server.rs", "{H}/post_message_slice.rs"]),
     ("C12", "slice_apply_patch.py", ["{R}/crates/rip-workspace/src/lib.rs", "{R}/crates/rip-workspace/src/patch.rs", "{H}/apply_patch_slice.rs", "{H}/hunk_loop_slice.rs"]),
+    ("C16", "slice_agent_loop.py", ["{S}/session.rs", "{H}/agent_loop_slice.rs", "{H}/request_gate_slice.rs"]),
 ]
 
 
